@@ -5,6 +5,9 @@
 package vp
 
 import (
+	"bytes"
+	"compress/zlib"
+	"io"
 	"encoding/hex"
 	"encoding/json"
 	"fmt"
@@ -226,4 +229,30 @@ func oneLine(s string) string {
 		s = s[:200]
 	}
 	return s
+}
+
+// Deflate compresses data: real zlib natively, the engine's lossless model
+// codec under symbolic execution (the zlib reader/writer stubs speak the same
+// model format, so frames built here are readable by the code under test).
+func Deflate(data []byte) []byte {
+	var b bytes.Buffer
+	zw := zlib.NewWriter(&b)
+	zw.Write(data)
+	zw.Close()
+	return b.Bytes()
+}
+
+// Inflate is the inverse of Deflate (ok=false if the stream is not valid or
+// has trailing garbage).
+func Inflate(stream []byte) ([]byte, bool) {
+	r := bytes.NewReader(stream)
+	zr, err := zlib.NewReader(r)
+	if err != nil {
+		return nil, false
+	}
+	out, err := io.ReadAll(zr)
+	if err != nil || r.Len() != 0 {
+		return nil, false
+	}
+	return out, true
 }
